@@ -558,6 +558,7 @@ def history_stream(ctx, res):
     the secret back (a key cached across the failure would encrypt under the key that is no longer on disk)"""
     import base64
     import cincoconfig as cc
+    from cincoconfig.encryption import KeyFile, SecureValue
     tmp = ctx.tmpdir()
     n = [0]
 
@@ -615,6 +616,54 @@ def history_stream(ctx, res):
             got = back(s, kp, doc, fmt)
             if got != want:
                 res.violate("C03:reload-differs", "loading the document with the same key file does not give the values back", dict(case, reloaded=got, want=want))
+        # (a') item configurations declared as objects in a list default, of a config type that names its own key file: every configuration
+        # gets its own copy, and the copy still encrypts under the type's key file; a field bound to a variable that is set but EMPTY
+        # has no binding: its stored secret loads like any other
+        item = cc.Schema()
+        item.name = cc.StringField(default="n")
+        item.token = cc.SecureField(method=method)
+        kitem = newkey()
+        Item = cc.make_type(item, "HistKeyed%d" % n[0], key_filename=kitem)
+        s2 = cc.Schema(env="CINCO_T_C03H")
+        s2.endpoints = cc.ListField(Item, default=[Item(name="e0", token="default-item-token")])
+        s2.secret = cc.SecureField(method=method)
+        s2.db.password = cc.SecureField(method=method, env="CINCO_T_C03H_NAMED")
+        kroot = newkey()
+        for var in ("CINCO_T_C03H_SECRET", "CINCO_T_C03H_NAMED", "CINCO_T_C03H_DB_PASSWORD"):
+            os.environ[var] = ""
+        try:
+            for round_ in range(2):
+                c2 = s2(key_filename=kroot)
+                c2.secret = "root-under-empty-variable"
+                c2.db.password = "nested-under-empty-variable"
+                case = {"stream": "history", "history": "default-item-objects-and-empty-variables", "method": method, "configuration": round_}
+                res.case(stable(case), kind="history:default-items")
+                try:
+                    tree = c2.to_tree()
+                    got_key = None
+                    for kp2 in (kitem, kroot):
+                        try:
+                            with KeyFile(kp2) as kf:
+                                tok = tree["endpoints"][0]["token"]
+                                if kf.decrypt(SecureValue(tok["method"], base64.b64decode(tok["ciphertext"]))) == b"default-item-token":
+                                    got_key = kp2
+                                    break
+                        except Exception:  # noqa
+                            continue
+                    if got_key != kitem:
+                        res.violate("C03:wrong-key:default-item", "the secret of a default list item whose config type names a key file is not stored under that key file",
+                                    dict(case, stored_under=os.path.basename(got_key) if got_key else None, expected=os.path.basename(kitem)))
+                    for fmt in ("json", "xml"):
+                        fresh = s2(key_filename=kroot)
+                        fresh.loads(c2.dumps(format=fmt), format=fmt)
+                        got = [fresh.secret, fresh.db.password, [e.token for e in fresh.endpoints]]
+                        if got != ["root-under-empty-variable", "nested-under-empty-variable", ["default-item-token"]]:
+                            res.violate("C03:reload-differs", "loading the document with the same key file does not give the secrets back", dict(case, fmt=fmt, reloaded=got))
+                except Exception as e:  # noqa
+                    res.violate("C03:reload-differs", "saving / loading raised %s" % type(e).__name__, dict(case, error=str(e)[:160]))
+        finally:
+            for var in ("CINCO_T_C03H_SECRET", "CINCO_T_C03H_NAMED", "CINCO_T_C03H_DB_PASSWORD"):
+                os.environ.pop(var, None)
         # (b)
         for failure in ("damaged-ciphertext", "unknown-method", "truncated-block", "empty-ciphertext"):
             for rotate in ("overwrite", "generate"):
